@@ -533,6 +533,9 @@ func runAggCheck(t *testing.T, prop string, oracle aggOracle, rule string, nontr
 				continue
 			}
 			for pi, perm := range perms[n] {
+				if n == 4 && r.Thorough() && !threeRelated(u, idx, relKeys) && pi%3 != 0 {
+					continue // unrelated multisets of 4 in the thorough tier: 8 of the 24 arrival orders
+				}
 				firsts := []int{0}
 				if pi%2 == 1 && n > 1 {
 					firsts = []int{n - 1}
@@ -967,7 +970,7 @@ func TestVerifC05(t *testing.T) {
 			}
 			for i := range s.Goroutines {
 				for j := i + 1; j < len(s.Goroutines); j++ {
-					if refKey(s.Goroutines[i], AnyValue) == refKey(s.Goroutines[j], AnyValue) {
+					if cachedRefKey(c, s, i, AnyValue) == cachedRefKey(c, s, j, AnyValue) {
 						return true
 					}
 				}
@@ -1022,7 +1025,7 @@ func TestVerifC12(t *testing.T) {
 			for i := range s.Goroutines {
 				for j := i + 1; j < len(s.Goroutines); j++ {
 					gi, gj := s.Goroutines[i], s.Goroutines[j]
-					if refKey(gi, AnyValue) == refKey(gj, AnyValue) && (refKey(gi, ExactFlags) != refKey(gj, ExactFlags) || gi.SleepMin != gj.SleepMin) {
+					if cachedRefKey(c, s, i, AnyValue) == cachedRefKey(c, s, j, AnyValue) && (cachedRefKey(c, s, i, ExactFlags) != cachedRefKey(c, s, j, ExactFlags) || gi.SleepMin != gj.SleepMin) {
 						return true
 					}
 				}
@@ -1044,6 +1047,21 @@ func threeRelated(u []sigAttr, idx []int, keys []string) bool {
 }
 
 var refKeyCache = map[[3]int]string{}
+
+// cachedRefKey is refKey for the goroutine at position pos of a small case, memoised
+// on (variant, named, level).
+func cachedRefKey(c *aggCase, s *Snapshot, pos int, level Similarity) string {
+	if c.idx == nil {
+		return refKey(s.Goroutines[pos], level)
+	}
+	ck := [3]int{c.idx[c.perm[pos]], b2i(c.named), int(level)}
+	k, ok := refKeyCache[ck]
+	if !ok {
+		k = refKey(s.Goroutines[pos], level)
+		refKeyCache[ck] = k
+	}
+	return k
+}
 
 func b2i(b bool) int {
 	if b {
